@@ -709,6 +709,13 @@ func (po *PinOptions) Equals(po2 *PinOptions) bool {
 			return false
 		}
 	}
+	// and the other way around: keys only present in po2
+	for k, v2 := range po2.Metadata {
+		v := po.Metadata[k]
+		if k != "" && v != v2 {
+			return false
+		}
+	}
 
 	// deliberately ignore Update
 
